@@ -8,7 +8,9 @@ the mod-2^w semantics exactly while letting z3's linear arithmetic decide the
 Horner / multiply-by-constant / shift-by-constant kernels on which bit-blasting
 does not terminate.
 """
-import time
+import os, sys, time
+if hasattr(sys, "set_int_max_str_digits"):
+    sys.set_int_max_str_digits(0)
 import z3
 
 from .terms import Term, mask
@@ -24,6 +26,8 @@ class LiaSolver:
         self.store = store
         self.s = z3.SolverFor('QF_LIA') if False else z3.Solver()
         self.s.set('timeout', timeout_ms)
+        self.timeout_ms = timeout_ms
+        self.prefer_fresh = False
         if seed:
             self.s.set('random_seed', seed & 0x7fffffff)
         self.zvars = {}
@@ -366,14 +370,30 @@ class LiaSolver:
                 fs.append(z >= 0)
                 fs.append(z <= (1 << v.w) - 1)
         t0 = time.time()
-        self.s.push()
-        try:
+        r = None
+        if not self.prefer_fresh:
+            self.s.push()
+            try:
+                for f in fs:
+                    self.s.add(f)
+                r = str(self.s.check())
+                self.last_model = self.s.model() if r == 'sat' else None
+            finally:
+                self.s.pop()
+        if r not in ('sat', 'unsat'):
+            # the push/pop solver runs z3's incremental core without preprocessing; a fresh solver gets the
+            # full tactic pipeline (solve-eqs, propagate-values ...) and decides many definitional systems at once
+            s2 = z3.Solver()
+            s2.set('timeout', self.timeout_ms)
             for f in fs:
-                self.s.add(f)
-            r = str(self.s.check())
-            self.last_model = self.s.model() if r == 'sat' else None
-        finally:
-            self.s.pop()
+                s2.add(f)
+            r = str(s2.check())
+            self.last_model = s2.model() if r == 'sat' else None
+            self.stats['fresh'] = self.stats.get('fresh', 0) + 1
+            if r not in ('sat', 'unsat') and os.environ.get('VERIF_LIA_DEBUG'):
+                sys.stderr.write('LIA unknown: %s after %.1fs, %d formulas\n' % (s2.reason_unknown(), time.time() - t0, len(fs)))
+                if os.environ.get('VERIF_LIA_DEBUG') != '1':
+                    open(os.environ['VERIF_LIA_DEBUG'], 'w').write(s2.to_smt2())
         self.stats['solver_s'] += time.time() - t0
         if r not in ('sat', 'unsat'):
             r = 'unknown'
